@@ -1,1 +1,19 @@
-fn main() {}
+//! Checks that use scnr's public API only (no feature).
+mod c01;
+mod c04;
+mod e2;
+mod fam;
+
+use refsem::evidence::{machinery, parse_args};
+
+fn main() {
+    let (prop, tier, _rest) = parse_args();
+    bridge::quiet_panics();
+    match prop.as_str() {
+        "C01" => c01::run(tier),
+        "C04" => c04::run("C04", tier),
+        "C05" => c04::run("C05", tier),
+        "C07" => c04::run("C07", tier),
+        p => machinery(&format!("pubcheck does not know property {p}")),
+    }
+}
